@@ -22,7 +22,8 @@ RULE = ("The product lhs-kind x rhs-kind x sense x written-direction is enumerat
         "is_satisfied <=> violation <= tol with l, r from an independent float interpreter; the dicts optyx "
         "hands to scipy.optimize.minimize (captured at the minimize seam) have type ineq/eq, fun = s*(l-r) "
         "with s=-1 for <=, +1 for >=, and jac = s*grad(l-r) with the SAME s.  Non-trivial = operand kinds are "
-        "not (expression, Python float), or reflected spelling, or more than one element.")
+        "not (expression, Python float), or reflected spelling, or more than one element.  Vector-expression operands include "
+        "x ** k and f(x) of a vector variable (element-wise results) on either side.")
 BUDGET = {"quick": {"workers": 16, "per_cell": 5}, "thorough": {"workers": 16, "per_cell": 40}}
 ASSUMPTIONS = ["scalar-expression right-hand sides of vector/matrix comparisons are not a documented operand pair and are not generated"]
 MANIFEST = {
@@ -80,7 +81,7 @@ def cell_cases(draw, cell):
                 n0 = vsize(lhs, env)
                 lhs = ["slice", lhs, None, None, -1] if n0 > 0 else lhs
         else:
-            lhs = g.V(draw(st.integers(1, 2)), classes=("expr",))
+            lhs = g.V(draw(st.integers(1, 2)), classes=("expr", "pow", "un"))  # incl. x ** k <= ..., sin(x) <= ...
         shape = (vsize(lhs, env),)
     else:
         mname = env["matrices"][0]["name"]
@@ -104,7 +105,7 @@ def cell_cases(draw, cell):
         src = g.var_vector_sources(shape[0])
         rhs = ["V", g.pick(src)] if src else ["V", g.vexpr(1, shape[0])]
     elif rk == "vector-expr":
-        rhs = ["V", g.V(1, shape[0], classes=("expr",))]
+        rhs = ["V", g.V(1, shape[0], classes=("expr", "pow", "un"))]
     elif rk in ("arr1d", "list"):
         rhs = ["arr" if rk == "arr1d" else "list", g.coeffs(shape[0])]
     elif rk == "matrix-var":
